@@ -317,8 +317,32 @@ pub fn eval_key(c: &KeyCase) -> Outcome {
         return o;
     }
     let mut ops = Vec::new();
+    // same structure, different parameter-set / header bytes
+    let other_frame = |salt: u64| -> Vec<u8> {
+        match codec {
+            0 | 1 => {
+                let fr = AnnexBFrame { nals: c.nals.clone(), lead_zeros: 0, trail_zeros: 0 };
+                fr.build(codec == 1, tag ^ salt).0
+            }
+            2 => {
+                let mut f2 = c.av1.clone();
+                if let Some(s) = f2.seq.as_mut() {
+                    s.ops.iter_mut().for_each(|o| o.level = (o.level + 3) & 31);
+                    s.reduced_level = (s.reduced_level + 3) & 31;
+                    s.w_m1 ^= 1;
+                }
+                f2.build(tag).0
+            }
+            _ => {
+                let mut k = c.vp9.clone();
+                k.profile = (k.profile + 1) & 3;
+                k.color = Some((0x23, Some(1)));
+                k.render = None;
+                k.build(tag).0
+            }
+        }
+    };
     if c.rejected_first % 5 != 0 && frame.len() > 8 {
-        // same structure, different parameter-set / header bytes
         let other: Vec<u8> = match codec {
             0 | 1 => {
                 let fr = AnnexBFrame { nals: c.nals.clone(), lead_zeros: 0, trail_zeros: 0 };
@@ -369,16 +393,20 @@ pub fn eval_key(c: &KeyCase) -> Outcome {
         _ => ops.push(COp::Video { pts: 0.0, data: frame.clone(), key: true }),
     }
     if c.second_frame {
-        // a later keyframe with different parameter sets must not replace the configuration
-        let mut later = frame.clone();
+        // a later keyframe with different parameter sets / another sequence header / other frame-header fields must not
+        // replace (any part of) the configuration; a third of the cases only change the last byte of the frame
+        let mut later = if c.height % 3 == 0 { frame.clone() } else { other_frame(0x0a0a_0000_0000) };
         let n = later.len();
-        if n > 8 {
+        if n > 8 && c.height % 3 == 0 {
             later[n - 1] ^= 0x55;
             if later[n - 1] == 0 {
                 later[n - 1] = 0x7f;
             }
         }
         ops.push(COp::Video { pts: 1.0, data: later, key: true });
+        if c.height % 3 == 2 {
+            ops.push(COp::Video { pts: 2.0, data: frame.clone(), key: true });
+        }
     }
     ops.push(COp::Finish(FinishKind::InPlace));
     let run = run_history(&cfg, &ops);
